@@ -29,6 +29,7 @@ const (
 	CUnregisteredRan       = "unregistered-fn-ran"             // C01/C06
 	CExecTwice             = "exec-twice"                      // C02
 	CNested                = "nested-entry"                    // C02
+	CNestedInvoke          = "nested-invoke"                   // an Invoke made from a callback fails although everything it needs is built
 	COutsideClosure        = "outside-closure"                 // C03
 	CMustRunMissing        = "mustrun-missing"                 // C03
 	CProvSingle            = "prov-single"                     // C01/C08/C09/C12
@@ -150,6 +151,91 @@ type VOpts struct {
 	// signature and option set, so the only legitimate rejections are
 	// duplicates and cycles.
 	ValidSigs bool
+}
+
+// checkCBNested judges an Invoke made from inside a callback (Opts.CBInvoke):
+// the callback runs after its function has completed, so a consumer of the
+// function's keys invoked there is an ordinary consumer. Claims are made only
+// when nothing has to be built for it (every function in its closure has
+// completed): anything else may legitimately meet a constructor that is still
+// under construction further up.
+func (v *VResult) checkCBNested(c *Case, rt *RT, i int, ii *InvokeInfo, ev Event, okAtStart map[int]bool) {
+	m := v.M
+	owner := -ev.Fn - 1000000
+	var spec *Reenter
+	for _, op := range c.Ops {
+		if op.F != nil && op.F.ID == owner && op.O != nil && op.O.CBInvoke != nil {
+			spec = op.O.CBInvoke
+		}
+	}
+	if spec == nil || (ev.Kind != EvEnter && ev.Kind != EvNested) || ev.CBPanics {
+		return
+	}
+	nf := NewMFn(&Fn{ID: ev.Fn, P: spec.P}, nil, KInvoke, m.scope(spec.S))
+	if m.ZonesOf(nf).Any() {
+		return
+	}
+	for id := range m.MayRun(nf) {
+		if g := m.Fns[id]; g == nil || g.OkExec < 0 {
+			return
+		}
+	}
+	for _, l := range nf.Leaves {
+		if !l.IsGroup && !l.Opt && m.NoSource(nf, l.Key) {
+			return
+		}
+		if ii.MidKeys[l.Key] {
+			return
+		}
+	}
+	v.Labels["callback-invoke-judged"] = true
+	switch ev.Kind {
+	case EvNested:
+		if ev.SideErr != nil {
+			v.add(CNestedInvoke, i, "an Invoke made from the callback of f%d for %v, all of whose dependencies are built, returned %v", owner, nf.F.Short(), ev.SideErr)
+		}
+	case EvEnter:
+		for _, l := range nf.Leaves {
+			obs, ok := navigate(ev.Args, l.Path)
+			if !ok {
+				continue
+			}
+			v.checkLeaf(rt, i, ii, nf, l, obs, okAtStart)
+		}
+	}
+}
+
+// nestedWindows marks the events that lie between a callback that makes an
+// Invoke (Opts.CBInvoke) and the return of that Invoke.
+func nestedWindows(c *Case, evs []Event) []bool {
+	in := make([]bool, len(evs))
+	open := map[int]int{}
+	for j, ev := range evs {
+		if ev.Kind == EvCB && ev.CBErr == nil {
+			if _, isOpen := open[ev.Fn]; !isOpen && cbInvokeSpec(c, ev.Fn) != nil {
+				open[ev.Fn] = j
+			}
+		}
+		if ev.Kind == EvNested {
+			owner := -ev.Fn - 1000000
+			if from, ok := open[owner]; ok {
+				for x := from + 1; x <= j; x++ {
+					in[x] = true
+				}
+			}
+		}
+	}
+	return in
+}
+
+// cbInvokeSpec: the Opts.CBInvoke of function id, if any.
+func cbInvokeSpec(c *Case, id int) *Reenter {
+	for _, op := range c.Ops {
+		if op.F != nil && op.F.ID == id && op.O != nil && op.O.CBInvoke != nil {
+			return op.O.CBInvoke
+		}
+	}
+	return nil
 }
 
 // keyConflictAttempt: registrations whose declared keys contradict each other
@@ -465,10 +551,36 @@ func (v *VResult) validateInvoke(c *Case, tr *Trace, rt *RT, i int, op Op, out O
 	}
 	// Snapshot leaf availability before execution (registrations do not
 	// change during an Invoke).
-	for _, ev := range tr.Events(i) {
+	evsAll := tr.Events(i)
+	// windows of Invokes made from callbacks: [position of the callback
+	// event, position of the EvNested event]; what registered functions
+	// receive when they run inside such a window is not judged (a decorator
+	// that is building its arguments further up is skipped by design)
+	inWindow := nestedWindows(c, evsAll)
+	for evIdx, ev := range evsAll {
 		if ev.Fn < 0 {
 			// function invoked re-entrantly from inside a user function body
 			v.Labels["reentrant-invoke"] = true
+			if ev.Fn <= cbNestedID(0) && !zoneSkip {
+				// no claim while some decorator has yet to start its body
+				// in this operation (it may be building its arguments)
+				decoLater := false
+				for _, later := range evsAll[evIdx+1:] {
+					if later.Kind == EvEnter && later.Fn >= 0 {
+						if g := m.Fns[later.Fn]; g != nil && g.Kind == KDeco {
+							decoLater = true
+						}
+					}
+				}
+				for _, a := range ev.Active {
+					if g := m.Fns[a]; g != nil && g.Kind == KDeco {
+						decoLater = true
+					}
+				}
+				if !decoLater {
+					v.checkCBNested(c, rt, i, ii, ev, okAtStart)
+				}
+			}
 			continue
 		}
 		switch ev.Kind {
@@ -536,6 +648,10 @@ func (v *VResult) validateInvoke(c *Case, tr *Trace, rt *RT, i int, op Op, out O
 				}
 			}
 			if zoneSkip {
+				continue
+			}
+			if inWindow[evIdx] {
+				v.Labels["ran-inside-callback-invoke"] = true
 				continue
 			}
 			for _, l := range g.Leaves {
@@ -716,7 +832,13 @@ func (v *VResult) validateInvoke(c *Case, tr *Trace, rt *RT, i int, op Op, out O
 func (v *VResult) checkFailures(c *Case, tr *Trace, rt *RT, i int, out OpOut, fn *MFn, ii *InvokeInfo) {
 	type fail struct{ fn, exec, outcome int }
 	var fails []fail
-	for _, ev := range tr.Events(i) {
+	win := nestedWindows(c, tr.Events(i))
+	for j, ev := range tr.Events(i) {
+		if win[j] && !(ev.Kind == EvExit && ev.Outcome == FaultPanic && !c.Cfg.Recover) {
+			// the callback drops the error of the Invoke it makes (a
+			// panic that dig does not recover passes through it)
+			continue
+		}
 		if ev.Kind == EvExit && ev.Outcome != FaultOK && ev.Fn >= 0 {
 			fails = append(fails, fail{ev.Fn, ev.Exec, ev.Outcome})
 		}
